@@ -192,6 +192,21 @@ func c08GenConfig(r *rand.Rand) c08Config {
 		}
 		b.WriteString("}\n")
 	}
+	if r.Intn(3) == 0 {
+		// the IDENTICAL check (same String()) in two or three blocks with different selectors: a check identity is enabled
+		// once per entry, by the first block that selects the entry and leaves it enabled
+		c := pick(r, c08Palette)
+		sels := []string{"  match {\n    kind = \"alerting\"\n  }\n", "  match {\n    kind = \"recording\"\n  }\n", "  match {\n    name = \"Foo.*\"\n  }\n",
+			"  ignore {\n    kind = \"recording\"\n  }\n", "  ignore {\n    name = \"Foo.*\"\n  }\n", "  match {\n    state = [\"added\", \"unmodified\"]\n  }\n", ""}
+		r.Shuffle(len(sels), func(i, j int) { sels[i], sels[j] = sels[j], sels[i] })
+		for k := 0; k < 2+r.Intn(2); k++ {
+			b.WriteString("rule {\n" + sels[k])
+			if r.Intn(4) == 0 {
+				b.WriteString("  locked = true\n")
+			}
+			b.WriteString(scIndent(c, "  ") + "}\n")
+		}
+	}
 	return c08Config{HCL: b.String(), Proms: proms}
 }
 
@@ -417,6 +432,22 @@ func runC08(args []string) int {
 				for _, p := range prs {
 					if p.Matched {
 						matched++
+					}
+				}
+				verdicts := map[string][2]bool{}
+				for _, p := range prs {
+					v := verdicts[p.Check.String()]
+					if p.Matched {
+						v[0] = true
+					} else {
+						v[1] = true
+					}
+					verdicts[p.Check.String()] = v
+				}
+				for _, v := range verdicts {
+					if v[0] && v[1] {
+						rep.hist("route:identical-check-with-mixed-match-verdicts")
+						break
 					}
 				}
 				switchedOff := matched > len(got) && len(got) > 0
